@@ -27,4 +27,14 @@ def main(pid, assumptions, level='proof', explanation=None):
     vlib.proof_phase(ctx)
     res = coresuite.dispatch_suite(ctx.tier, ctx.seed)
     cov = coresuite.summarize(ctx, res, pid)
+    if ctx.broken and not ctx.violations:
+        # a proof or the correspondence no longer checks: search harder for a concrete failing input (DESIGN.md section 7)
+        for extra in range(2 if ctx.tier == 'quick' else 6):
+            res2 = coresuite.dispatch_suite('thorough', ctx.seed * 1000 + 100 + extra)
+            saved = list(ctx.broken)
+            cov2 = coresuite.summarize(ctx, res2, pid)
+            ctx.broken = saved
+            cov['search_evaluations'] = cov.get('search_evaluations', 0) + cov2['evaluations']
+            if ctx.violations:
+                break
     vlib.finish(ctx, cov, assumptions=assumptions, explanation=explanation)
